@@ -5,7 +5,7 @@ import ast
 
 from .. import seeds
 from ..flow import Engine, Client
-from ..front import AnalysisError, dotted, fname, is_self_attr, src, walk_no_nested, const_value, ancestors
+from ..front import AnalysisError, dotted, fname, is_self_attr, src, walk_no_nested, const_value, ancestors, positional, bind_call
 from ..imodel import IntegrateModel, DS, dominates, path_key, is_t_buf, is_y_buf
 from ..kind import KindEngine
 from ..sym import Canon, Poly
@@ -298,6 +298,9 @@ def stores(repo, run, m):
             if isinstance(v, ast.Call) and dotted(v.func) == "dict":
                 kws = {k.arg: src(k.value) for k in v.keywords}
                 kw_ok = kws.get("dtype") == "y0.dtype"
+            if isinstance(v, ast.Dict):
+                kws = {k.value: src(val) for k, val in zip(v.keys, v.values) if isinstance(k, ast.Constant)}
+                kw_ok = kws.get("dtype") == "y0.dtype"
     run.judged(rid, "array kwargs pin dtype=y0.dtype", ok=kw_ok)
     if not kw_ok:
         run.report("C03.4", DS, init, "self.__array_con_kwargs does not pin dtype=y0.dtype", text="array kwargs dtype")
@@ -321,8 +324,9 @@ class OrientClient(Client):
 
     def _orients(self, node):
         for c in ast.walk(node):
-            if isinstance(c, ast.Call) and dotted(c.func) == "self.__fix_dt_dir" and len(c.args) == 2:
-                if isinstance(c.args[0], ast.Name) and c.args[0].id == self.m.tf and src(c.args[1]) == "self.__t[self.counter]":
+            if isinstance(c, ast.Call) and dotted(c.func) == "self.__fix_dt_dir":
+                a = positional(c, self.m.fix_params, 2)
+                if isinstance(a[0], ast.Name) and a[0].id == self.m.tf and a[1] is not None and src(a[1]) == "self.__t[self.counter]":
                     return True
         return False
 
@@ -388,8 +392,8 @@ def orientation(repo, run, m):
     eng.run(m.fn, [False])
     setter = repo.get(DS, "OdeSystem.dt@setter")
     run.analysed_fn(DS, setter)
-    setter_by_span = any(isinstance(c, ast.Call) and dotted(c.func) == "self.__fix_dt_dir" and [src(a) for a in c.args] == ["self.tf", "self.t0"]
-                         for c in ast.walk(setter))
+    setter_by_span = any(isinstance(c, ast.Call) and dotted(c.func) == "self.__fix_dt_dir" and
+                         [src(a) if a is not None else None for a in positional(c, m.fix_params, 2)] == ["self.tf", "self.t0"] for c in ast.walk(setter))
     for sid, node in cl.watch.items():
         states = cl.seen.get(sid, (node, set()))[1]
         ok = states == {True}
